@@ -1,4 +1,4 @@
-CONSTANTS MaxGen = 1 DropStyledBlank = FALSE RowSkip = "never" Family = "small" EmitReplay = TRUE
+CONSTANTS MaxGen = 1 DropStyledBlank = FALSE ColFold = "adjacent" RowSkip = "never" Family = "small" EmitReplay = TRUE
 SPECIFICATION MCSpec
 INVARIANTS Emit
 CHECK_DEADLOCK FALSE
